@@ -252,17 +252,18 @@ func symSelect(base []value, i *Term) (value, bool) {
 	}
 	out := make([]value, len(first))
 	for j := range first {
-		var res *Term
-		for k := len(base) - 1; k >= 0; k-- {
-			c, _ := comps(base[k])
-			e := c[j].(*Term)
-			if res == nil {
-				res = e
-			} else {
-				res = mkIte(mkEq(i, mkBV(64, uint64(k))), e, res)
+		// a balanced decision tree over the index (depth log n) rather than a
+		// chain of n equalities: the index is known to be in range here
+		var sel func(lo, hi int) *Term
+		sel = func(lo, hi int) *Term {
+			if hi-lo == 1 {
+				c, _ := comps(base[lo])
+				return c[j].(*Term)
 			}
+			mid := (lo + hi) / 2
+			return mkIte(bvCmp("bvult", i, mkBV(64, uint64(mid))), sel(lo, mid), sel(mid, hi))
 		}
-		out[j] = res
+		out[j] = sel(0, len(base))
 	}
 	if kind == 1 {
 		return array(out), true
